@@ -447,7 +447,11 @@ func (x *Exec) copyCall(e *ast.CallExpr, st *State) Value {
 	}
 	n := Ite(x.ar.le(dst.Len, src.Len, idxII), dst.Len, src.Len)
 	if dst.Reg == nil {
-		x.fail(e.Pos(), "copy into untracked slice")
+		if x.coarse {
+			x.abstr["copy into an untracked slice (content not modelled)"] = true
+		} else {
+			x.fail(e.Pos(), "copy into untracked slice")
+		}
 		return Sc{n}
 	}
 	old := st.regs[dst.Reg]
@@ -571,7 +575,7 @@ func (x *Exec) freshResult(st *State, resT types.Type) Value {
 // havocked; slices passed as arguments may have been written.
 func (x *Exec) abstractCall(e *ast.CallExpr, st *State, what string, resT types.Type, args []Value, recvVal Value) Value {
 	x.abstr["callee without contract: "+what] = true
-	x.checkSinks(e, st, what)
+	x.checkSinks(e, st, what, args)
 	if !x.coarse {
 		x.fail(e.Pos(), "call to %s: no contract (strict unit)", what)
 	}
@@ -736,7 +740,7 @@ func (x *Exec) applyContract(e *ast.CallExpr, st *State, fn *types.Func, c *Cont
 		x.oblige(st, "pre", callName+"."+r.Label, r.Label, g, e.Pos())
 		st.add(g)
 	}
-	x.checkSinks(e, st, c.Short)
+	x.checkSinks(e, st, c.Short, args)
 	x.factSink = st
 	// frame
 	oldEnv := map[string]cbind{}
